@@ -4,6 +4,8 @@ import os
 
 
 def jobs_default():
+    if os.environ.get('XDOC_VERIF_JOBS'):
+        return max(1, int(os.environ['XDOC_VERIF_JOBS']))
     try:
         return max(1, min(16, len(os.sched_getaffinity(0))))
     except Exception:
